@@ -2001,6 +2001,22 @@ class SymEx:
                 if cv is not None:
                     out.append((x, cv))
                     continue
+            if isinstance(e.ctx, ast.Load) and isinstance(e.value, ast.Name) and e.value.id == 'self' and b == x.env.get('self') and not self.suppress:
+                # a setting kept in the class body and never assigned on an instance anywhere in the package (rounding = UnitRounding.WHOLE_UNITS):
+                # reading it off self finds the class-level value of the class self is an instance of
+                c_ = self.dyn.get(len(self.frames)) or self.fn.cls
+                cc = self.M.class_constant(c_, e.attr) if c_ is not None else None
+                if cc is not None and not isinstance(cc[1], (ast.Constant, ast.List, ast.Dict, ast.Set, ast.ListComp, ast.DictComp)):
+                    self.frames.append(self.M.module_func(cc[0].mod))
+                    try:
+                        r_ = self.ev(cc[1], State())
+                    except Undecided:
+                        r_ = []
+                    finally:
+                        self.frames.pop()
+                    if len(r_) == 1 and r_[0][0].exc is None and r_[0][1][0] == 'new' and r_[0][1][1].startswith('enum:'):
+                        out.append((x, r_[0][1]))
+                        continue
             props = self.M.property_targets(self.fn, e, self.tenv()) if isinstance(e.ctx, ast.Load) else []
             dyn = self.dyn.get(len(self.frames))
             if dyn is not None and isinstance(e.value, ast.Name) and e.value.id == 'self' and b == x.env.get('self') and isinstance(e.ctx, ast.Load):
@@ -3238,6 +3254,16 @@ def _fuse_comp(c):
         # for k, v in {k2: g(k2) for ...}.items()  /  for x in list(<generator>)
         while it[0] == 'call' and it[1] in (('ext', 'LIST'), ('ext', 'TUPLE')) and len(it[2]) == 1 and not it[3] and it[2][0][0] == 'comp' and it[2][0][1] in ('gen', 'list'):
             it = it[2][0]
+        # iterating a tuple/list copy of a dict view visits what the view holds, in the same order
+        while it[0] == 'call' and it[1] in (('ext', 'LIST'), ('ext', 'TUPLE')) and len(it[2]) == 1 and not it[3] and it[2][0][0] == 'call' and it[2][0][1][0] == 'meth' \
+                and it[2][0][1][1] in ('items', 'values', 'keys') and len(it[2][0][2]) == 1:
+            it = it[2][0]
+        # (v for k, v in D.items()) visits D.values(); (k for k, v in D.items()) visits D.keys()
+        if it[0] == 'call' and it[1] == ('meth', 'items') and len(it[2]) == 1 and len(shape) == 2 and all(z[0] == 'bv' for z in shape) and kind != 'dict':
+            used = {s_ for t_ in (elt,) + tuple(ifs) for s_ in T.subterms(t_) if s_[0] == 'bv'}
+            if shape[0] not in used and shape[1] in used:
+                f1 = lambda z: shape[0] if z == shape[1] else None
+                return _fuse_comp(('comp', kind, T.replace(elt, f1), (((shape[0],), ('call', ('meth', 'values'), it[2], ()), tuple(T.replace(i, f1) for i in ifs)),)))
         if it[0] == 'call' and it[1] == ('meth', 'items') and len(it[2]) == 1 and it[2][0][0] == 'comp' and it[2][0][1] == 'dict' and len(shape) == 2 \
                 and all(z[0] == 'bv' for z in shape) and it[2][0][2][0] == 'tuple' and not any(x[0] == 'comp' for x in T.subterms(elt)):
             inner = it[2][0]
